@@ -268,6 +268,17 @@ def run(ctx):
         defs[cid] = d
         twins.append({"id": cid, "syntax": "dsl" if k % 3 else "json", "text": None, "name": "Dev", "want": ["mir", "facts", "pretty"]})
         twins[-1]["text"] = adef.render(d, twins[-1]["syntax"], rng)
+    # a block ref that pushes its target's contents beyond the address type: rejected on a sound tree (and then not used
+    # here); if it is accepted, the accessor's final `as <address type>` truncates the mathematically defined address
+    # (seed C04-10 stopped range-checking what lies behind a block ref)
+    for k, (at, off) in enumerate((("u8", 0xF8), ("u8", 250), ("i8", 120), ("u16", 0xFFF8))):
+        d = {"config": adef.mk_config(register_address_type=at, command_address_type=at), "objects": [
+            adef.mk_block("Bank", [adef.mk_register("Status", 0x10, 8, [adef.mk_field("va", "uint", 0, 8, form="excl")]),
+                                   adef.mk_command("Go", 0x11, basic=True)], address_offset=0),
+            adef.mk_ref("Highbank", "Bank", {"kind": "block", "address_offset": off})]}
+        cid = f"u{k}"
+        defs[cid] = d
+        twins.append({"id": cid, "syntax": "dsl", "text": adef.render(d, "dsl", rng), "name": "Dev", "want": ["mir", "facts", "pretty"]})
     cases = twins + cases
     res = gen_common.run_gen(ctx, exe, cases)
     acc = [c for c in cases if res[c["id"]].get("status") == "ok" and res[c["id"]].get("parse_ok")][:want + len(twins)]
